@@ -232,3 +232,16 @@ theorem allpred_correct (adj : Adj) (s : Nat) (hwf : WF adj) (hs : s < adj.lengt
   exact ⟨a, b, c, d, e, loop_scans_le hwf hn _ _ _ hi hg⟩
 
 end BGV.AllPred
+
+namespace BGV.AllPred
+open Bfs (nbrs MAX WF Walk)
+
+/-- the final state of the search satisfies the invariant with an empty queue -/
+theorem final_inv (adj : Adj) (s : Nat) (hwf : WF adj) (hs : s < adj.length) (hn : adj.length < MAX) :
+    AInv adj s (loop adj (2 * adj.length + 1) (init adj.length s) []).1 ∧
+    (loop adj (2 * adj.length + 1) (init adj.length s) []).1.queue = [] := by
+  have hi := init_ainv adj s hs
+  have hg := init_ginv adj s
+  exact ⟨(loop_inv hwf hn (2 * adj.length + 1) _ _ hi hg).1, loop_done hwf hn _ _ _ hi hg (by simp; omega)⟩
+
+end BGV.AllPred
